@@ -55,8 +55,6 @@ def main():
         s = json.load(open(out)); os.unlink(out)
         s['batch'] = b
         summaries.append(s)
-        if r.returncode == 2:
-            rc = 2
     # ---- verdict
     props = spec.get('props', [pid])
     viol_lines, known_lines, mach = [], [], []
@@ -82,7 +80,9 @@ def main():
             else:
                 mach.append(v)
     if any(s.get('machinery_faults', 0) for s in summaries) or mach:
-        rc = 2
+        # unreproducible classes invalidate the run only if nothing reproducible was found:
+        # reproducible violations are reported (exit 1) and the unreproducible ones listed next to them
+        rc = 2 if not viol_lines else 0
     # ---- evidence
     runs = sum(s['runs'] for s in summaries)
     wall = time.time() - t0
@@ -133,6 +133,9 @@ def main():
         for v in mach: print('  ', json.dumps(v)[:400])
         sys.exit(2)
     for l in viol_lines: print(l)
+    if viol_lines and mach:
+        print('NOTE: %d further class(es) of this property did not reproduce in a fresh process (layout-dependent crashes after memory corruption) and are not reported as violations:' % len(mach))
+        for v in mach: print('   %s/%s seen %d times, first seed %s' % (v.get('prop'), v.get('sig'), v.get('count', 0), v.get('first_seed')))
     print('%s %s: %d runs, %d distinct non-trivial, %.1f s, %s' % (pid, tier, runs, cov['distinct_nontrivial'], wall, 'VIOLATIONS' if viol_lines else 'ok'))
     sys.exit(1 if viol_lines else 0)
 
